@@ -87,6 +87,10 @@ def main() -> int:
         try:
             for pid in m["pids"]:
                 rc, out = run_check(pid, d, a.runs)
+                tried = 1
+                while rc == 0 and tried < m.get("needle", 0):
+                    rc, out = run_check(pid, d, a.runs, seed=tried)
+                    tried += 1
                 if m.get("benign"):
                     ok = rc == 0
                     bad += not ok
@@ -111,7 +115,7 @@ def main() -> int:
                         out += "\nREPLAY FAILED: " + r.stdout[-400:] + r.stderr[-400:]
                     os.unlink(path)
                 tests = run_tests(d) if a.tests else ""
-                print(f"{'ok  ' if caught else 'MISS'} {m['id']:<34} {pid} rc={rc} oracle={oracle} {tests}")
+                print(f"{'ok  ' if caught else 'MISS'} {m['id']:<34} {pid} rc={rc} oracle={oracle} {tests}" + (f" (needle: seed {tried - 1})" if m.get("needle") else ""))
                 if not caught:
                     print("   " + out.strip()[-600:].replace("\n", "\n   "))
         finally:
